@@ -143,7 +143,9 @@ fn gen_case(r: &mut Rng) -> Case {
 pub fn run(ctx: &Ctx, st: &mut Stats) {
     // fixed hostile points: both meridians at a ladder of latitudes, date line, near-poles
     let mut idx = 0u64;
-    for lon in [39.823333, -140.176667, 180.0, -180.0, 0.0] {
+    let kl = 39.823333_f64;
+    let nudged = |x: f64, k: i64| f64::from_bits((x.to_bits() as i64 + k) as u64);
+    for lon in [kl, -140.176667, 180.0, -180.0, 0.0, -kl, 140.176667, nudged(kl, 1), nudged(kl, -1), nudged(kl, 3), nudged(-140.176667, 1), nudged(-140.176667, -2), -0.0] {
         for i in -899..=899 {
             idx += 1;
             if !ctx.mine(idx) {
@@ -155,6 +157,10 @@ pub fn run(ctx: &Ctx, st: &mut Stats) {
                 elev: X(0.0),
                 elev2: X(8848.0),
             };
+            // published for the stall watchdog
+            if let Ok(mut cur) = crate::rec::CURRENT.lock() {
+                *cur = serde_json::to_string(&c).unwrap_or_default();
+            }
             check(ctx, st, &c);
             st.nontrivial_key(hash64(&format!("{:?}", c)));
         }
